@@ -102,6 +102,12 @@ type World struct {
 	// the (non-canonical) encoding of the last block was not accepted by
 	// Verify: nothing is claimed for it and the behaviour stops there
 	encRejected bool
+	// serial mode (C13): fault enumeration at every restore step
+	serial  bool
+	nserial int
+	histSoFar []Step
+	pcached   map[int]bool
+	evlog   func(any)
 }
 
 func rowsFor(tier string) []uint8 {
